@@ -278,7 +278,7 @@ func v2(w *World, r *Report) {
 		}
 		ok := rew != nil && del != nil
 		if ok {
-			ok = w.canonCall(rew.Common(), 0) == "p1.Reward(p0.From, types.PowerToAmount(p0.Power), true)" &&
+			ok = w.canonCall(rew.Common(), 0) == "^p1.Reward(p0.From, types.PowerToAmount(p0.Power), true)" &&
 				w.canonCall(del.Common(), 0) == "recv.frozenLedger.DelFinality(ledger.ToLedgerKey(p0.TxHash))" &&
 				instrDominates(rew, del) && w.nilTestAt(callValue(rew), del.Block()) == -1
 		}
